@@ -495,13 +495,107 @@ def make_levelB(N, tol, ratio, D):
                       stubs=["np.log/np.logaddexp -> exact log-domain algebra", "np.max -> fresh m (no fork)"], theory="QF_NRA",
                       timeout_ms=30000)
 
+def make_levelB_replaced(N, tol, ratio, D):
+    """sequence on ONE Reweighter/StateManager pair: a reweighting step on pool 1, then the state is replaced in place by a
+    different pool with the same number of committed iterations (update_from_dict: the load/resume path), then a second
+    reweighting step from beta=0. The second step must be the step a fresh object takes on pool 2 (nothing remembered per
+    temperature or per history length may stand in for the new pool)."""
+    tolf = Fraction(tol)
+    ratio = Fraction(float(Fraction(ratio)))
+
+    def pool(tag, ls):
+        st = StateManager(n_dim=1)
+        st.update_current({"u": np.zeros((N, 1)), "logl": ls, "beta": 0.0, "logz": LogVal({}) if tag else 0.0})
+        st.commit_current_to_history()
+        return st
+
+    def harness(ctx: PathCtx):
+        l1 = [LogVal.atom(f"l{j}", D) for j in range(N)]
+        l2 = [LogVal.atom(f"m{j}", D) for j in range(N)]
+        st = pool(True, sarr(l1))
+        st._current["beta"] = 0.0
+        st._current["iter"] = 1
+        rw = rw_mod.Reweighter(state=st, pbar=None, n_particles=1, ess_ratio=float(ratio), volume_variation=None,
+                               ESS_TOLERANCE=0.01, BETA_TOLERANCE=float(tolf))
+        with patched(rw_mod, np=NpProxy(exact_log=True, overrides={"max": max_model, "isfinite": lambda x: True})), \
+                patched(sm_mod, np=NpProxy(exact_log=True)):
+            rw.run()
+            b1 = SymReal.lift(st._current["beta"]).concrete()
+            st.update_from_dict(pool(True, sarr(l2)).to_dict())
+            st._current["beta"] = 0.0
+            st._current["iter"] = 1
+            weights = rw.run()
+        bc = SymReal.lift(st._current["beta"]).concrete()
+        ctx.notes["beta"] = f"{b1}->{bc}"
+        ctx.check("step2:beta-on-dyadic-grid-in[0,1]", z3.BoolVal(bc is not None and 0 <= bc <= 1))
+        if bc is None:
+            return None
+        a = [SymReal(list(l.coef.keys())[0].a, sign="+") for l in l2]
+        k = int(bc * D)
+        spec = [x ** k if k else SymReal.const(1) for x in a]
+        tot = spec[0]
+        for x in spec[1:]:
+            tot = tot + x
+        ctx.check("step2:weights==C04-spec-of-the-new-pool-at-returned-beta", z3.And(*[eq(weights[s_], spec[s_] / tot) for s_ in range(N)]))
+        ctx.check("step2:ess==ESS-of-the-new-pool", eq(st._current["ess"], spec_ess(spec)))
+        if bc > 0:
+            ctx.check("step2:advance=>ESS-of-the-new-pool>=target", le(ratio, spec_ess(spec)))
+        return f"{b1}->{bc}"
+
+    def concrete(m):
+        l1 = np.array([D * math.log(float(m.get(f"expatom_l{j}", 1))) for j in range(N)])
+        l2 = np.array([D * math.log(float(m.get(f"expatom_m{j}", 1))) for j in range(N)])
+        st = pool(False, l1)
+        st.set_current("beta", 0.0)
+        st.set_current("iter", 1)
+        rw = rw_mod.Reweighter(state=st, pbar=None, n_particles=1, ess_ratio=float(ratio), volume_variation=None,
+                               ESS_TOLERANCE=0.01, BETA_TOLERANCE=float(tolf))
+        rw.run()
+        st.update_from_dict(pool(False, l2).to_dict())
+        st.set_current("beta", 0.0)
+        st.set_current("iter", 1)
+        w = rw.run()
+        fresh = pool(False, l2)
+        fresh.set_current("beta", 0.0)
+        fresh.set_current("iter", 1)
+        rw2 = rw_mod.Reweighter(state=fresh, pbar=None, n_particles=1, ess_ratio=float(ratio), volume_variation=None,
+                                ESS_TOLERANCE=0.01, BETA_TOLERANCE=float(tolf))
+        rw2.run()
+        return st, l1, l2, w, fresh
+
+    def replay(m, label, v):
+        for k_, v_ in m.items():
+            if k_.startswith("expatom") and not (1e-20 < float(v_) < 1e20):
+                return {"reproduced": False, "what": "model outside the double range"}
+        st, l1, l2, w, fresh = concrete(m)
+        b = st.get_current("beta")
+        spec = np.exp(b * l2)
+        e = spec.sum() ** 2 / (spec ** 2).sum()
+        bad = (not np.allclose(w, spec / spec.sum(), rtol=1e-7)) or (not math.isclose(st.get_current("ess"), e, rel_tol=1e-7)) \
+            or (b > 0 and e < float(ratio) * (1 - 1e-9))
+        return {"reproduced": bool(bad), "signature": "Reweighter.run:stale-after-pool-replacement",
+                "payload": {"logl_1": l1.tolist(), "logl_2": l2.tolist(), "beta": b, "ess": st.get_current("ess"), "weights": np.asarray(w).tolist(),
+                            "fresh_beta": fresh.get_current("beta")},
+                "what": f"Reweighter.run on pool logl={l1.tolist()}, then update_from_dict(<pool logl={l2.tolist()}, same history length>), then "
+                        f"Reweighter.run again from beta=0 (ESS target {float(ratio)}): beta={b}, recorded ess={st.get_current('ess')}, "
+                        f"pool ESS at that beta={e}, weights={np.asarray(w).tolist()}; a fresh object on the new pool goes to beta={fresh.get_current('beta')} ({label})"}
+
+    return Obligation(f"B-replaced-pool-N{N}-tol{tol}-ratio{ratio}", harness, replay=replay,
+                      encodes=[rw_mod.Reweighter.run, StateManager.compute_logw_and_logz, StateManager.update_from_dict, rw_mod.effective_sample_size],
+                      bounds=f"two one-batch pools of N={N} symbolic log-likelihoods each, ESS target {ratio}, BETA_TOLERANCE={tol}, exponent grid 1/{D}; "
+                             "step / replace state in place (same history length) / step on one Reweighter",
+                      stubs=["np.log/np.logaddexp -> exact log-domain algebra", "np.max -> fresh m (no fork)"], theory="QF_NRA",
+                      timeout_ms=30000)
+
 
 def obligations(tier):
     if tier == "quick":
         return [make_levelA("ess", 2, "1/4"), make_levelA("ess", 2, "1/4", first=True), make_levelA("vol", 2, "1/4"),
                 make_levelA_two_steps("vol", 2, "1/2"), make_levelA_two_steps("ess", 2, "1/2"),
-                make_levelB(2, "1/4", "3/2", 8), make_levelB(2, "1/2", "5/4", 4)]
+                make_levelB(2, "1/4", "3/2", 8), make_levelB(2, "1/2", "5/4", 4), make_levelB_replaced(2, "1/2", "5/4", 4)]
     return [make_levelA("ess", 2, "1/4"), make_levelA("ess", 2, "1/4", first=True), make_levelA("vol", 2, "1/4"),
             make_levelA("ess", 2, "1/16"), make_levelA("ess", 3, "1/8"), make_levelA("vol", 2, "1/8"), make_levelA("vol", 3, "1/4"),
             make_levelB(2, "1/4", "3/2", 8), make_levelB(2, "1/2", "5/4", 4), make_levelB(2, "1/8", "3/2", 16),
-            make_levelB(3, "1/4", "2", 8), make_levelB(2, "1/4", "19/10", 8)]
+            make_levelB(3, "1/4", "2", 8), make_levelB(2, "1/4", "19/10", 8),
+            make_levelA_two_steps("vol", 2, "1/2"), make_levelA_two_steps("ess", 2, "1/2"),
+            make_levelB_replaced(2, "1/2", "5/4", 4), make_levelB_replaced(2, "1/4", "3/2", 8)]
